@@ -1275,8 +1275,11 @@ func vfGenSys(r *vfh.Rand, epoch time.Time) vfSysState {
 		a.ManageTemporaryAddresses, a.StablePrivacy, a.ValidForever = r.Chance(1, 5), r.Chance(1, 5), r.Chance(1, 4)
 		s.addrs = append(s.addrs, a)
 	}
-	rts := []string{"2001:db8:f00::/48", "2001:db8:f00:1::/64", "2001:db8:e00::/40", "fd00:ff::/32", "2001:db8::1/128", "10.0.0.0/8", "::/0"}
-	for k := r.Intn(4); k > 0; k-- {
+	// (several entries share a base address and differ in length — an aggregate and its first
+	// subnet — and the dump lists them in either order, with repeats)
+	rts := []string{"2001:db8:f00::/48", "2001:db8:f00:1::/64", "2001:db8:e00::/40", "fd00:ff::/32", "2001:db8::1/128", "10.0.0.0/8", "::/0",
+		"2001:db8:f00::/56", "2001:db8:f00::/64", "fd00:ff::/48", "2001:db8:e00::/48"}
+	for k := r.Intn(6); k > 0; k-- {
 		p := vfh.Pick(r, rts)
 		if p == "::/0" && !r.Chance(1, 5) {
 			continue
